@@ -123,8 +123,9 @@ def adjudicate(check, t, ob):
         # values that are not exactly representable in any narrower type, so that a hidden narrowing shows
         mu, mub = 0.3, (0.7 if model.startswith('Compressible') else 0.0)
         hdr = '#include <PhQ/ConstitutiveModel/%s.hpp>\n#include <cstdio>\nusing namespace PhQ;\n' % model
-        mk_model = 'ConstitutiveModel::%s<%s> m(DynamicViscosity<%s>(%r, Unit::DynamicViscosity::PascalSecond)%s);' % (
-            model, MT, MT, mu, (', BulkDynamicViscosity<%s>(%r, Unit::DynamicViscosity::PascalSecond)' % (MT, mub)) if model.startswith('Compressible') and nm != 'ctor1' else '')
+        sfx = {'float': 'F', 'double': '', 'long double': 'L'}[MT]       # literals in the model's own type (0.3L is not a double)
+        mk_model = 'ConstitutiveModel::%s<%s> m(DynamicViscosity<%s>(%r%s, Unit::DynamicViscosity::PascalSecond)%s);' % (
+            model, MT, MT, mu, sfx, (', BulkDynamicViscosity<%s>(%r%s, Unit::DynamicViscosity::PascalSecond)' % (MT, mub, sfx)) if model.startswith('Compressible') and nm != 'ctor1' else '')
         e = [1.0, 2.0, -3.0, 4.0, 0.5, -2.0]
         tr = e[0] + e[3] + e[5]
         sig = [2 * mu * x + (mub * tr if i in (0, 3, 5) else 0) for i, x in enumerate(e)]
@@ -146,17 +147,40 @@ def adjudicate(check, t, ob):
                 args, expect = tens('Stress', e), [0.0] * 6
             else:
                 args, expect = tens('Stress', sig), e
-            body = '  %s\n  auto r = m.%s(%s);\n  const auto& v = r.Value();\n  std::printf("%%.17g %%.17g %%.17g %%.17g %%.17g %%.17g\\n", (double)v.xx(), (double)v.xy(), (double)v.xz(), (double)v.yy(), (double)v.yz(), (double)v.zz());\n' % (mk_model, nm, args)
+            body = '  %s\n  auto r = m.%s(%s);\n  const auto& v = r.Value();\n  std::printf("%%.25Lg %%.25Lg %%.25Lg %%.25Lg %%.25Lg %%.25Lg\\n", (long double)v.xx(), (long double)v.xy(), (long double)v.xz(), (long double)v.yy(), (long double)v.yz(), (long double)v.zz());\n' % (mk_model, nm, args)
         cpp = hdr + 'int main() {\n' + body + '  return 0; }\n'
         r, err = replay.build_and_run(cpp, os.path.join(check.work, 'replay'), 'r_' + re.sub(r'\W+', '_', ob.name)[:150])
         if err:
             rec['replay_error'] = err
         else:
             rec['cpp'], rec['native_output'] = cpp, r.stdout
+            from decimal import Decimal
+            from fractions import Fraction as Fr
+            from ..cemit import round_to
             vals = [float(x) for x in r.stdout.split()]
+            exact_vals = [Fr(Decimal(x)) if x not in ('inf', '-inf', 'nan', '-nan') else None for x in r.stdout.split()]
             argT_ = re.search(r'<(.*)>', f.params[1][1][1][1]).group(1) if nm != 'ctor1' else MT
-            tol = 1e-5 if 'float' in (argT_, MT) else 1e-13       # the result has the precision of the narrower of model and argument type
-            bad = ['got %r expected %r (tolerance %g relative: the precision of the result type)' % (g, w, tol) for g, w in zip(vals, expect) if abs(g - w) > tol * max(1.0, abs(w))]
+            narrow = min((argT_, MT), key=lambda t_: {'float': 0, 'double': 1, 'long double': 2}[t_])
+            tol = {'float': 1e-5, 'double': 1e-13, 'long double': 64.0 * 2.0 ** -63}[narrow]     # the precision of the narrower of model and argument type
+            # expected values with the viscosities as the model holds them (the literals rounded to the model's type), exactly
+            mu_x, mub_x = round_to(Fr(str(mu)), MT), round_to(Fr(str(mub)), MT)
+            ex = [Fr(x) for x in e]
+            trx = ex[0] + ex[3] + ex[5]
+            sig_x = [2 * mu_x * x + (mub_x * trx if i in (0, 3, 5) else 0) for i, x in enumerate(ex)]
+            if expect is sig:
+                expect_x = sig_x
+            elif expect is e:
+                expect_x = None         # inverse of a rounded sigma: judged at double resolution below
+            else:
+                expect_x = [Fr(x) for x in expect]
+            bad = []
+            for i, (g, w) in enumerate(zip(vals, expect)):
+                if expect_x is not None and exact_vals[i] is not None:
+                    wx = expect_x[i]
+                    if abs(exact_vals[i] - wx) > Fr(tol) * max(Fr(1), abs(wx)):
+                        bad.append('component %d: got %s expected %.25g (tolerance %g relative: the precision of the result type %s)' % (i, r.stdout.split()[i], float(wx), tol, narrow))
+                elif abs(g - w) > max(tol, 1e-13) * max(1.0, abs(w)):
+                    bad.append('got %r expected %r' % (g, w))
             if bad or len(vals) != len(expect):
                 confirmed = True
                 rec['mismatch'] = bad or ['output %s' % r.stdout]
